@@ -587,6 +587,15 @@ func (Engine) Run(c *simkit.Choices, x *simkit.Ctx) *simkit.Violation {
 	if len(evs) == 0 {
 		return nil
 	}
+	if c.N(4) == 0 {
+		// the same values in other integer event kinds (as after a trip
+		// through another format): every expectation still holds
+		evs = model.RetypeNumbers(c, evs)
+		src += "+retyped-integers"
+		if treeSrc != nil {
+			treeSrc = nil // (its analytic oracle is about exact event kinds)
+		}
+	}
 	if c.N(3) == 0 {
 		// shape mismatches at any depth: subtrees replaced, members rotated
 		evs = model.MutateStream(c, evs, 1+c.N(3))
